@@ -8,10 +8,11 @@ pub(super) enum CompatibleDocument<'a> {
 
 impl<'a> CompatibleDocument<'a> {
     pub(super) fn from_bytes(bytes: &'a [u8]) -> Self {
-        if is_ring(bytes) {
-            Self::CleanedFromRing(fix_ring_doc(bytes.to_vec()))
-        } else {
-            Self::WellFormed(bytes)
+        // A document that contains the template but does not have the shape of a ring document is
+        // passed on as is, for the parser to reject it.
+        match is_ring(bytes).then(|| fix_ring_doc(bytes.to_vec())).flatten() {
+            Some(doc) => Self::CleanedFromRing(doc),
+            None => Self::WellFormed(bytes),
         }
     }
 }
@@ -31,16 +32,19 @@ const RING_TEMPLATE_CONTEXT_SPECIFIC: &[u8] = &[0xA1, 0x23, 0x03, 0x21];
 const WELL_FORMED_CONTEXT_ONE_PREFIX: &[u8] = &[0x81, 0x21];
 
 // If present, removes a malfunctioning pubkey suffix and adjusts the length at the start.
-fn fix_ring_doc(mut doc: Vec<u8>) -> Vec<u8> {
-    assert!(!doc.is_empty());
+//
+// Returns `None` if the document does not have the shape of a ring document.
+fn fix_ring_doc(mut doc: Vec<u8>) -> Option<Vec<u8>> {
     // Check if first tag is ASN.1 SEQUENCE
-    assert_eq!(doc[0], 0x30);
+    if doc.first() != Some(&0x30) {
+        return None;
+    }
     // Second byte asserts the length for the rest of the document
-    assert_eq!(doc[1] as usize, doc.len() - 2);
+    if doc.get(1).map(|len| usize::from(*len)) != doc.len().checked_sub(2) {
+        return None;
+    }
 
-    let idx = doc
-        .find(RING_TEMPLATE_CONTEXT_SPECIFIC)
-        .expect("Expected to find ring template in doc, but found none.");
+    let idx = doc.find(RING_TEMPLATE_CONTEXT_SPECIFIC)?;
 
     // Snip off the malformed bit.
     let suffix = doc.split_off(idx);
@@ -49,11 +53,12 @@ fn fix_ring_doc(mut doc: Vec<u8>) -> Vec<u8> {
     doc.extend(WELL_FORMED_CONTEXT_ONE_PREFIX);
 
     // Then give it the actual public key.
-    doc.extend(&suffix[4..]);
+    doc.extend(suffix.get(4..)?);
 
-    doc[1] = doc.len() as u8 - 2;
+    let len = u8::try_from(doc.len().checked_sub(2)?).ok()?;
+    *doc.get_mut(1)? = len;
 
-    doc
+    Some(doc)
 }
 
 fn is_ring(bytes: &[u8]) -> bool {
